@@ -1,5 +1,6 @@
 import PikaVerif.Lemmas.CV3
 import PikaVerif.Lemmas.CV4
+import PikaVerif.Lemmas.CV5
 /-!
 # C07 — Condition variables never lose a notification
 
@@ -813,6 +814,50 @@ theorem C07_no_lost_stop (s : St) (hr : Reachable s) (hd : s.stopDone = true) (t
       · rw [hcb] at h; simp at h
       · rw [hcu] at h; simp at h
   exact ⟨he, fun hp => by rw [hp.1] at he; simp [exposed] at he⟩
+
+/-- **(b) No lost stop, trace form.**  Take the event with which `request_stop` sets the stop
+    bit, any stop-token waiter `w` that at that moment has passed its re-check and has not been
+    notified (it is parked in, or on its way to, `agent.suspend`), and any continuation of the
+    execution up to a state in which that `request_stop` has left its callback loop: the
+    continuation contains an event that pops and resumes `w` (`cv.pop`/`cv.popall` + resume) or
+    an agent wake-up of `w`. -/
+theorem C07_stop_wakes_each (s s1 s2 : St) (hr : Reachable s) (u w : Nat) (log : List Ev)
+    (h1 : step s (.stAcq u 1) = some s1) (hc : s.curOp w = .swait) (he : exposed (s.pc w) = true)
+    (h2 : runLog step s1 log = some s2) (hd : s2.stopDone = true) :
+    ∃ e ∈ log, (∃ x z d, e = .popAll x z w d) ∨ (∃ x z d, e = .popResume x z w d) ∨ e = .woke w := by
+  have hr1 : Reachable s1 := hr.step h1
+  have hs1 : s1.curOp w = .swait ∧ exposed (s1.pc w) = true := by
+    rcases exposed_step s s1 hr.inv.2 _ w hc he h1 with ⟨x, z, d, h⟩ | ⟨x, z, d, h⟩ | h | h
+    · simp at h
+    · simp at h
+    · simp at h
+    · exact h
+  have main : ∀ (log : List Ev) (sa : St), Reachable sa →
+      sa.curOp w = .swait ∧ exposed (sa.pc w) = true → runLog step sa log = some s2 →
+      ∃ e ∈ log, (∃ x z d, e = .popAll x z w d) ∨ (∃ x z d, e = .popResume x z w d) ∨ e = .woke w := by
+    intro log
+    induction log with
+    | nil =>
+      intro sa hra hsa hrun
+      simp at hrun
+      subst hrun
+      have := (C07_no_lost_stop sa hra hd w hsa.1).1
+      rw [hsa.2] at this
+      simp at this
+    | cons e es ih =>
+      intro sa hra hsa hrun
+      simp only [runLog] at hrun
+      cases hs : step sa e with
+      | none => simp [hs] at hrun
+      | some sb =>
+        simp only [hs] at hrun
+        rcases exposed_step sa sb hra.inv.2 e w hsa.1 hsa.2 hs with h | h | h | h
+        · exact ⟨e, by simp, Or.inl h⟩
+        · exact ⟨e, by simp, Or.inr (Or.inl h)⟩
+        · exact ⟨e, by simp, Or.inr (Or.inr h)⟩
+        · obtain ⟨e', hm, hp⟩ := ih sb (hra.step hs) h hrun
+          exact ⟨e', by simp [hm], hp⟩
+  exact main log s1 hr1 hs1 h2
 
 /-- **(b) A stop-token wait returns once stop is requested (progress form).**  In a reachable
     stuck state in which stop has been requested, the winning `request_stop` has completed, and
